@@ -337,7 +337,7 @@ class Engine:
         finally:
             self.mode = old
 
-    def _is_main_test(self, fn, P, cond):
+    def _is_main_test(self, fn, P, cond, depth=0):
         """br condition that is pthread_equal(pthread_self(), main_thread) != 0 -> True"""
         e = strip_casts(P.expr(cond))
         neg = False
@@ -345,6 +345,15 @@ class Engine:
             if e[1] == 'eq':
                 neg = not neg
             e = strip_casts(e[2])
+        if e[0] == 'call' and e[1] not in (None, 'pthread_equal') and depth < 2:
+            # a small helper that returns exactly this test (`static bool in_main_thread(void)`)
+            h = self.prog.resolve(fn.module, e[1])
+            if h is not None and not e[2].ops:
+                rets = [b for b in h.blocks.values() if b.term.op == 'ret' and b.term.ops]
+                if len(rets) == 1 and len([i for i in h.insns() if i.op == 'call']) <= 2:
+                    r = self._is_main_test(h, self.cg.prov(h), rets[0].term.ops[0], depth + 1)
+                    if r is not None:
+                        return r if not neg else (not r)
         if e[0] == 'call' and e[1] == 'pthread_equal':
             args = [strip_casts(P.expr(a)) for a in e[2].ops]
             kinds = sorted(a[0] for a in args)
